@@ -38,6 +38,9 @@ package eval
 //@   callsite[C27] GetClassMethodT a_frame == nextFrame && a_targetClass == class
 //@   # the superclass written as F::N::C lives in frame CalculateFrame(F, N): outer part first
 //@   callsite[C27] CalculateFrame a_frame == parentFrame && a_class == parentNamespace
+//@   # C16: a superclass written with a namespace (Ns::String) stays in that namespace even when its short
+//@   # name is also a configured builtin class
+//@   mapwrite[C16] base.ClassInheritanceMap parentNamespace != "" ==> value[len(value)-1].Frame == parentNamespace || strings.HasSuffix(value[len(value)-1].Frame, "::" + parentNamespace)
 
 //@ # ---- C02 layer 3 (eos-exit): evaluator loops that read tokens must leave at end of stream ----
 //@ func (*ti/eval.Case).Evaluation
@@ -290,3 +293,10 @@ package eval
 //@   requires wfP(p) && p != nil
 //@   inline 2 1
 //@   callsite[C06] TypeToString p.ErrorRow == old(p.ErrorRow)
+
+//@ # C10: in the else-type computation the variants of a union are compared with the tested types by
+//@ # class name, not by type tag (every user-defined class has the same tag)
+//@ func (*ti/eval.IfUnless).narrowing
+//@   sitesonly
+//@   inline 2 1
+//@   callsite[C10] IsEqualObject !inscope(variant)
